@@ -3,6 +3,8 @@
 package main
 
 import (
+	"time"
+
 	"github.com/tinode/chat/server/auth"
 	"github.com/tinode/chat/server/store/types"
 )
@@ -257,5 +259,89 @@ func Harness_C07_offline_p2p_set_sub() {
 		verifAssert(sub.ModeWant&^types.ModeCP2P == 0, "p2p-modes-within-JRWPA")
 		verifAssert(sub.ModeWant.IsApprover(), "p2p-modes-keep-approve")
 	}
+	verifReach("end")
+}
+
+// A user's search topic admits only its own user: a stranger (at any level) who addresses a loaded 'fnd' topic
+// by its literal name is refused, gets no subscription row and is not attached. The topic is built by the real
+// initTopicFnd, so the default access that must keep everybody out comes from the code under test.
+func Harness_C07_fnd_admits_only_its_user() {
+	verifNewStore()
+	verifInitGlobals()
+	victim, stranger := types.Uid(5), types.Uid(9)
+	name := victim.FndName()
+	for _, u := range []types.Uid{victim, stranger} {
+		usr := &types.User{State: types.StateOK, Access: types.DefaultAccess{Auth: types.ModeCAuth, Anon: types.ModeNone}}
+		usr.SetUid(u)
+		verifStore.users[u] = usr
+	}
+	verifStore.subs[verifSubKey(name, victim)] = &types.Subscription{User: victim.String(), Topic: name, ModeWant: types.ModeCSelf, ModeGiven: types.ModeCSelf}
+	verifStore.topics[name] = &types.Topic{ObjHeader: types.ObjHeader{Id: name}}
+	own := verifNewSession("sid-v", victim, auth.LevelAuth, 16)
+	t := &Topic{name: name, xoriginal: "fnd", perUser: map[types.Uid]perUserData{}, sessions: map[*Session]perSessionData{},
+		clientMsg: make(chan *ClientComMessage, 8), meta: make(chan *ClientComMessage, 8), unreg: make(chan *ClientComMessage, 8), supd: make(chan *sessionUpdate, 8),
+		killTimer: time.NewTimer(time.Hour)}
+	err := initTopicFnd(t, &ClientComMessage{AsUser: victim.UserId(), sess: own, Sub: &MsgClientSub{Topic: "fnd"}})
+	verifAssert(err == nil && len(t.perUser) == 1, "search-topic-loads-with-its-user")
+	lvl := []auth.Level{auth.LevelAnon, auth.LevelAuth, auth.LevelRoot}[verifChoose("level", 3)]
+	s := verifNewSession("sid-s", stranger, lvl, 16)
+	s.inflightReqs = newBoundedWaitGroup(8)
+	s.inflightReqs.Add(1)
+	msg := &ClientComMessage{Id: "r1", AsUser: stranger.UserId(), AuthLvl: int(lvl), Original: name, RcptTo: name,
+		Timestamp: types.TimeNow(), sess: s, init: true, Sub: &MsgClientSub{Id: "r1", Topic: name}}
+	if m := []string{"", "JPS", "JRWPS"}[verifChoose("mode", 3)]; m != "" {
+		msg.Sub.Set = &MsgSetQuery{Sub: &MsgSetSub{Mode: m}}
+	}
+	t.registerSession(msg)
+	_, in := t.perUser[stranger]
+	_, att := t.sessions[s]
+	verifAssert(!in && !att, "search-topic-admits-only-its-own-user")
+	verifAssert(verifStore.subs[verifSubKey(name, stranger)] == nil, "stranger-gets-no-subscription-to-a-search-topic")
+	refused := false
+	for _, r := range verifDrainSend(s) {
+		if r != nil && r.Ctrl != nil && r.Ctrl.Id == "r1" && r.Ctrl.Code >= 400 {
+			refused = true
+		}
+	}
+	verifAssert(refused, "stranger-is-told-no")
+	verifReach("end")
+}
+
+// A user's 'me' topic admits only its own user: the user itself cannot invite anybody onto it ({set sub user=X}
+// on 'me'), and nobody else ends up in its member table or with a subscription row for it.
+func Harness_C07_me_admits_only_its_user() {
+	verifNewStore()
+	verifInitGlobals()
+	owner, other := types.Uid(5), types.Uid(9)
+	name := owner.UserId()
+	for _, u := range []types.Uid{owner, other} {
+		usr := &types.User{State: types.StateOK, Access: types.DefaultAccess{Auth: types.ModeCP2P, Anon: types.ModeNone}}
+		usr.SetUid(u)
+		verifStore.users[u] = usr
+	}
+	verifStore.subs[verifSubKey(name, owner)] = &types.Subscription{User: owner.String(), Topic: name, ModeWant: types.ModeCSelf, ModeGiven: types.ModeCSelf}
+	s := verifNewSession("sid-o", owner, auth.LevelAuth, 16)
+	t := &Topic{name: name, xoriginal: "me", perUser: map[types.Uid]perUserData{}, sessions: map[*Session]perSessionData{},
+		clientMsg: make(chan *ClientComMessage, 8), meta: make(chan *ClientComMessage, 8), unreg: make(chan *ClientComMessage, 8),
+		killTimer: time.NewTimer(time.Hour)}
+	err := initTopicMe(t, &ClientComMessage{AsUser: owner.UserId(), sess: s, Sub: &MsgClientSub{Topic: "me"}})
+	verifAssert(err == nil && len(t.perUser) == 1, "me-topic-loads-with-its-user")
+	t.sessions[s] = perSessionData{uid: owner}
+	s.subs[name] = &Subscription{broadcast: t.clientMsg, done: t.unreg, meta: t.meta, supd: t.supd}
+	mode := []string{"", "JP", "JRWPAS", "N"}[verifChoose("mode", 4)]
+	msg := &ClientComMessage{Id: "r1", AsUser: owner.UserId(), AuthLvl: int(auth.LevelAuth), Original: "me", RcptTo: name,
+		Timestamp: types.TimeNow(), sess: s, init: true, MetaWhat: constMsgMetaSub,
+		Set: &MsgClientSet{Id: "r1", Topic: "me", MsgSetQuery: MsgSetQuery{Sub: &MsgSetSub{User: other.UserId(), Mode: mode}}}}
+	t.handleMeta(msg)
+	_, in := t.perUser[other]
+	verifAssert(!in && len(t.perUser) == 1, "me-topic-admits-only-its-own-user")
+	verifAssert(verifStore.subs[verifSubKey(name, other)] == nil, "nobody-else-gets-a-subscription-to-a-me-topic")
+	n := 0
+	for _, r := range verifDrainSend(s) {
+		if r != nil && r.Ctrl != nil && r.Ctrl.Id == "r1" {
+			n++
+		}
+	}
+	verifAssert(n >= 1, "request-answered")
 	verifReach("end")
 }
